@@ -209,7 +209,15 @@ def enumerate_paths(ctx, body, starts, stop=None, budget=60000):
         return sf_cache[bb]
     out = []
 
-    def dfs(bb, path, facts):
+    def whole(op):
+        if isinstance(op, dict):
+            for k_ in ("m", "c"):
+                v = op.get(k_)
+                if isinstance(v, list) and len(v) == 1 and isinstance(v[0], int):
+                    return v[0]
+        return None
+
+    def dfs(bb, path, facts, bools):
         left[0] -= 1
         if left[0] < 0:
             raise RuntimeError("path budget exhausted in %s" % body.id)
@@ -217,13 +225,32 @@ def enumerate_paths(ctx, body, starts, stop=None, budget=60000):
         if stop and stop(bb):
             out.append((path, frozenset(facts), False))
             return
-        if body.term(bb)["k"] == "return":
+        # flags set to a constant on this path (`let go = match x { A => true, B => false }; if go {..}`) decide later tests
+        bools = dict(bools)
+        for st_ in body.blocks[bb]["s"]:
+            if st_.get("k") == "assign" and len(st_["d"]) == 1:
+                rv = st_["rv"]
+                if rv.get("k") == "use" and isinstance(rv.get("o"), dict) and isinstance(rv["o"].get("k"), dict) and rv["o"]["k"].get("ty") == "bool" and ("bool" in rv["o"]["k"] or "int" in rv["o"]["k"]):
+                    bools[st_["d"][0]] = bool(rv["o"]["k"].get("bool", rv["o"]["k"].get("int")))
+                elif rv.get("k") == "use" and whole(rv.get("o")) in bools:
+                    bools[st_["d"][0]] = bools[whole(rv["o"])]
+                else:
+                    bools.pop(st_["d"][0], None)
+        t = body.term(bb)
+        if t["k"] == "return":
             out.append((path, frozenset(facts), True))
             return
-        for s in body.succ(bb):
+        if t["k"] == "call" and isinstance(t.get("dest"), list) and len(t["dest"]) == 1:
+            bools.pop(t["dest"][0], None)
+        succs = body.succ(bb)
+        if t["k"] == "switch" and t.get("dty") == "bool" and whole(t.get("d")) in bools:
+            val = 1 if bools[whole(t["d"])] else 0
+            hit = [tg for v, tg in t["targets"] if v == val]
+            succs = hit[:1] if hit else [t["otherwise"]]
+        for s in succs:
             if s in path:
                 continue
-            dfs(s, path, facts | set(sf(bb).get(s, ())))
+            dfs(s, path, facts | set(sf(bb).get(s, ())), bools)
     for st in starts:
-        dfs(st, (), set())
+        dfs(st, (), set(), {})
     return out
